@@ -22,6 +22,7 @@ type SpecEnv struct {
 	pkg   *types.Package
 	loop  *ssa.BasicBlock
 	pre   *State // loop-head state of the current iteration (hints)
+	other *State // axioms: second heap state
 	depth int
 }
 
@@ -125,6 +126,12 @@ func (env *SpecEnv) eval(e SExpr) Val {
 		}
 		n := env.with(env.old)
 		// parameters inside old() are entry values already
+		return n.force(n.eval(x.X))
+	case SOther:
+		if env.other == nil {
+			env.fail("other() is only available in axioms and lemmas")
+		}
+		n := env.with(env.other)
 		return n.force(n.eval(x.X))
 	case SPre:
 		if env.pre == nil {
@@ -931,7 +938,7 @@ func (env *SpecEnv) call(x SCall) Val {
 		for i, hk := range f.Heaps {
 			h := env.vc.getHeap(env.st, hk, f.HeapSorts[i])
 			as = append(as, h)
-			if wt := env.eng.wtPred(hk, f.HeapSorts[i]); wt != "" && !strings.HasPrefix(h, "axh") {
+			if wt := env.eng.wtPred(hk, f.HeapSorts[i]); wt != "" && !strings.HasPrefix(h, "axh") && !strings.HasPrefix(h, "axg") {
 				env.vc.assumeOnce(app(wt, h))
 			}
 		}
